@@ -208,6 +208,17 @@ Example c03_nonvacuous :
    end).
 Proof. vm_compute. repeat split. Qed.
 
+
+(* ------------------------------------------------------------------ tie to the source by translation *)
+(** The Rust functions below are translated to Gallina from the repository's CURRENT sources on every run
+    (tools/rs2coq.py -> theories/Gen.v); they equal the model's functions for all arguments, so the theorems above
+    hold for what the code says now. A change of one of these functions that is not an equivalent rewrite breaks the
+    proof obligation here. *)
+From Hoot Require Import Gen.
+From Hoot.proofs Require Import Gen_equiv.
+Theorem c03_code_max_chunk_fit : forall a m, gen_max_chunk_fit a m = max_chunk_fit a m.
+Proof. exact gen_max_chunk_fit_eq. Qed.
+
 Print Assumptions c03_call.
 Print Assumptions c03_call_shape.
 Print Assumptions c03_finish.
@@ -225,3 +236,4 @@ Print Assumptions c03_roundtrip.
 Print Assumptions c03_roundtrip_reaches_end.
 Print Assumptions c03_roundtrip_unfinished.
 Print Assumptions c03_nonvacuous.
+Print Assumptions c03_code_max_chunk_fit.
